@@ -52,6 +52,20 @@ class Ctx:
     def X(self, node):
         return self.env.expand(node)
 
+    def absent(self, rule, node, slot, expected, found, extra=None):
+        """Report a *missing* effect: a VIOLATION only in a closed world - when no tracked container (nor the object
+        itself) is handed to a callable whose body the extractor does not see, and no unclassified helper is called."""
+        esc = self.eff.escapes()
+        helper_calls = [n for n in walk(self.func.body) if isinstance(n, ast.Call) and isinstance(n.func, ast.Name)
+                        and n.func.id.startswith('_') and n.func.id in self.func.module.funcs]
+        helper_calls += [n for n in walk(self.func.body) if isinstance(n, ast.Call) and isinstance(n.func, ast.Attribute)
+                         and isinstance(n.func.value, ast.Name) and n.func.value.id == (self.params[0] if self.params else 'self')
+                         and n.func.attr.startswith('_') and not n.func.attr.startswith('__')]
+        if esc or helper_calls:
+            n = (esc or helper_calls)[0]
+            return self.R.unknown(rule, self.func, n, slot, f'effect may happen inside {src(n)[:60]} (not followed)')
+        return self.R.bad(rule, self.func, node, slot, expected, found, extra)
+
     def is_param(self, node, index):
         node = self.X(node)
         return isinstance(node, ast.Name) and len(self.params) > index and node.id == self.params[index]
@@ -283,8 +297,8 @@ def t_setitem(C):
             R.bad('CELLS-WITHIN-AXES', func, wrong[0].node, f'{fld}.add(component {i})',
                   f'component {i} of the cell added to {fld}', src(wrong[0].node))
         else:
-            R.bad('CELLS-WITHIN-AXES', func, func.node, f'{fld}.add(component {i})',
-                  f'unconditional self.{fld}.add(<component {i} of the cell>)', 'no such statement')
+            C.absent('CELLS-WITHIN-AXES', func.node, f'{fld}.add(component {i})',
+                     f'unconditional self.{fld}.add(<component {i} of the cell>)', 'no such statement')
 
     def is_pair(node):
         node2 = C.X(node)
@@ -295,7 +309,7 @@ def t_setitem(C):
 
     def polarity(e):
         pol = None
-        for test, p in e.conds:
+        for test, p in e.allconds:
             inner, neg = strip_not(test)
             if name_is(inner, value):
                 pol = p != neg
@@ -346,9 +360,9 @@ def t_rename(C):
     if rest:
         raise Unrecognised(f'cell mutation outside the rename idiom: {src(rest[0].node)}', func=func, node=rest[0].node)
     if not dels:
-        R.bad('RENAME', func, func.node, 'remove (old, .) cells', f'removal of every ({old}, .) cell', 'no removal from the cell set')
+        C.absent('RENAME', func.node, 'remove (old, .) cells', f'removal of every ({old}, .) cell', 'no removal from the cell set')
     if not adds:
-        R.bad('RENAME', func, func.node, 'add (new, .) cells', f'addition of ({new}, .) for every removed ({old}, .)', 'no addition to the cell set')
+        C.absent('RENAME', func.node, 'add (new, .) cells', f'addition of ({new}, .) for every removed ({old}, .)', 'no addition to the cell set')
     if not dels or not adds:
         return
     if len(dels) != 1 or len(adds) != 1:
@@ -367,7 +381,10 @@ def t_rename(C):
     v = cell_matches(dcell, old, dctx)
     if v is None:
         w = cell_matches(dcell, new, dctx)
-        R.bad('RENAME', func, d.node, 'removed cell', f'({old}, .) cells removed', src(dcell))
+        if w is not None or (C.cell(dcell, dctx) and any(name_is(C.X(c_), nm_) for c_ in C.cell(dcell, dctx) for nm_ in (old, new))):
+            R.bad('RENAME', func, d.node, 'removed cell', f'({old}, .) cells removed', src(dcell))
+        else:
+            R.unknown('RENAME', func, d.node, 'removed cell', f'cannot relate {src(dcell)} to ({old}, .)')
         return
     b = C.binding(v, dctx)
     it_field = C.field_of(b[1]) if b else None
@@ -453,11 +470,11 @@ def t_add(C, setter=False):
     if a:
         R.ok('CELLS-WITHIN-AXES', func, a[0].node, f'{axis}.add({name})')
     else:
-        R.bad('CELLS-WITHIN-AXES', func, func.node, f'{axis}.add({name})', f'unconditional self.{axis}.add({name})', 'no such statement')
+        C.absent('CELLS-WITHIN-AXES', func.node, f'{axis}.add({name})', f'unconditional self.{axis}.add({name})', 'no such statement')
     ext = [e for e in C.eff.on(other, {'ior', 'update'}) if e.unconditional]
     ext_ok = [e for e in ext if e.args and derived_from_param(C, e.args[0], 2)]
     if not ext_ok:
-        R.bad('CELLS-WITHIN-AXES', func, func.node, f'{other} |= {seq}', f'unconditional self.{other} |= {seq}', 'no such statement')
+        C.absent('CELLS-WITHIN-AXES', func.node, f'{other} |= {seq}', f'unconditional self.{other} |= {seq}', 'no such statement')
     else:
         e = ext_ok[0]
         R.ok('CELLS-WITHIN-AXES', func, e.node, f'{other} |= {seq}')
@@ -486,7 +503,7 @@ def t_add(C, setter=False):
         ups = [e for e in pm if e.op in ('update', 'ior') and e.unconditional]
         if len(pm) != 1 or len(ups) != 1:
             if not pm:
-                R.bad('CELL-ADD', func, func.node, 'cells added', f'({name}, .) for every . in {seq}', 'no cell mutation')
+                C.absent('CELL-ADD', func.node, 'cells added', f'({name}, .) for every . in {seq}', 'no cell mutation')
                 return
             raise Unrecognised('cell mutation outside the add idiom', func=func, node=pm[0].node)
         e = ups[0]
@@ -522,7 +539,7 @@ def t_add(C, setter=False):
         # polarity: membership of . in the given collection decides add vs discard
 
         def pol(e, v):
-            for test, p in e.conds:
+            for test, p in e.allconds:
                 inner, neg = strip_not(test)
                 if (isinstance(inner, ast.Compare) and len(inner.ops) == 1 and name_is(inner.left, v)
                         and derived_from_param(C, inner.comparators[0], 2)):
@@ -550,7 +567,7 @@ def t_add(C, setter=False):
                 'CELL-SET', func, ups[0].node, 'given cells added', f'({name}, .) for . in {seq}', src(uc))
         return
     if not pm:
-        R.bad('CELL-SET', func, func.node, 'cells written', f'cells of {name} set to exactly {seq}', 'no cell mutation')
+        C.absent('CELL-SET', func.node, 'cells written', f'cells of {name} set to exactly {seq}', 'no cell mutation')
         return
     raise Unrecognised('cell mutation outside the set_* idioms', func=func, node=pm[0].node)
 
@@ -567,7 +584,7 @@ def t_remove(C):
         raise Unrecognised(f'unexpected mutation of the other axis: {src(om[0].node)}', func=func, node=om[0].node)
     if len(rm) != 1 or rm[0].op not in ('remove', 'discard') or not rm[0].unconditional:
         if not rm:
-            R.bad('AXIS-REMOVE', func, func.node, 'name removed from axis', f'self.{axis}.remove({name})', 'no removal')
+            C.absent('AXIS-REMOVE', func.node, 'name removed from axis', f'self.{axis}.remove({name})', 'no removal')
             return
         raise Unrecognised(f'axis mutation outside the remove idiom: {src(rm[0].node)}', func=func, node=rm[0].node)
     r = rm[0]
@@ -577,8 +594,8 @@ def t_remove(C):
             'remove() (KeyError for an unknown name)', f'{r.op}() (silently ignores an unknown name)')
     pm = [e for e in C.eff.on('_pairs') if mut(e)]
     if not pm:
-        R.bad('PURGE', func, func.node, 'cells of the removed name purged', f'every ({name}, .) removed from the cell set',
-              'no cell mutation: stale cells survive and reappear when the name is added again')
+        C.absent('PURGE', func.node, 'cells of the removed name purged', f'every ({name}, .) removed from the cell set',
+                 'no cell mutation: stale cells survive and reappear when the name is added again')
         return
     if len(pm) != 1:
         raise Unrecognised('more than one cell mutation in remove_*', func=func, node=pm[1].node)
@@ -657,7 +674,7 @@ def t_remove_empty(C):
     good_rm = [e for e in rm if e.field == axis and e.op in ('remove', 'discard') and len(e.loops) == 1 and not e.conds]
     if len(rm) != 1 or len(good_rm) != 1:
         if not rm:
-            R.bad('REMOVE-EMPTY', func, func.node, 'names removed from axis', f'self.{axis}.remove(x) for every listed x', 'no removal')
+            C.absent('REMOVE-EMPTY', func.node, 'names removed from axis', f'self.{axis}.remove(x) for every listed x', 'no removal')
             return
         raise Unrecognised('mutation outside the remove_empty idiom', func=func, node=rm[0].node)
     e = good_rm[0]
@@ -677,8 +694,8 @@ def t_update(C, op):
     for fld in FIELDS:
         es = [e for e in muts if e.field == fld]
         if not es:
-            R.bad('INPLACE-ALL-FIELDS', func, func.node, f'{fld} updated', f'self.{fld} {"|=" if want == "ior" else "&="} {other}.{fld}',
-                  'field is not updated')
+            C.absent('INPLACE-ALL-FIELDS', func.node, f'{fld} updated', f'self.{fld} {"|=" if want == "ior" else "&="} {other}.{fld}',
+                     'field is not updated')
             continue
         if len(es) > 1 or not es[0].unconditional:
             raise Unrecognised(f'several/conditional updates of {fld}', func=func, node=es[0].node)
@@ -819,7 +836,7 @@ def unique_rules(model, R):
         if ok_s and ok_i:
             # both under the same membership guard
             def guard_pol(e):
-                for test, p in e.conds:
+                for test, p in e.allconds:
                     inner, neg = strip_not(test)
                     if (isinstance(inner, ast.Compare) and len(inner.ops) == 1 and name_is(inner.left, item)
                             and chain(inner.comparators[0]) in (['self', '_seen'], ['self', '_items'])):
